@@ -370,6 +370,58 @@ def main(tier: str) -> int:
         if len(pop) != 8 or any((not well_formed(t)) or depth_of(flat_names(t)[1]) > 5 for t in pop):
             chk.fail("half_and_half produced a malformed or too deep tree", {"seed": chk.seed + 12000 + s}, {"fn": "init", "clause": "half_and_half"})
 
+    # ------------------------------------------------------------------ the pool tables of live instances: each name is bound to
+    # the operator it names (identity of the function object, parameter, constant-rate flag)
+    import thefittest.utils.mutations as MU
+    import thefittest.utils.crossovers as CX
+    for cls in (GeneticProgramming, SelfCGP, PDPGP):
+        kwp = dict(fitness_function=lambda tr: np.zeros(len(tr)), uniset=us, iters=2, pop_size=4, parents_num=3, tour_size=4, mutation_rate=0.3)
+        inst = cls(**kwp)
+        exp_m = {f"gp_{r}_{k}": (fn, rate, r == "custom_rate") for k, fn in (("point", MU.point_mutation), ("grow", MU.growing_mutation), ("swap", MU.swap_mutation), ("shrink", MU.shrink_mutation))
+                 for r, rate in (("weak", 0.25), ("average", 1), ("strong", 4), ("custom_rate", 0.3))}
+        exp_x = {"gp_empty": (CX.empty_crossoverGP, 1), "gp_standard": (CX.standard_crossover, 2), "gp_one_point": (CX.one_point_crossoverGP, 2)}
+        for fam, fn in (("uniform", CX.uniform_crossoverGP), ("uniform_prop", CX.uniform_proportional_crossover_GP), ("uniform_rank", CX.uniform_rank_crossover_GP), ("uniform_tour", CX.uniform_tournament_crossover_GP)):
+            for suffix, n in ((("3", 3) if fam == "uniform_tour" else ("2", 2)), ("7", 7), ("k", 3)):
+                exp_x[f"gp_{fam}_{suffix}"] = (fn, n)
+        wrong = []
+        for name, (fn, rate, const) in exp_m.items():
+            got = inst._mutation_pool.get(name)
+            if got is None or got[0] is not fn or float(got[1]) != float(rate) or bool(got[2]) != const:
+                wrong.append((name, None if got is None else (getattr(got[0], "__name__", "?"), got[1:])))
+        for name, (fn, n) in exp_x.items():
+            got = inst._crossover_pool.get(name)
+            if got is None or got[0] is not fn or int(got[1]) != n:
+                wrong.append((name, None if got is None else (getattr(got[0], "__name__", "?"), got[1:])))
+        chk.count("pool_table_" + cls.__name__)
+        chk.case(("pool_table", cls.__name__))
+        chk.obligation(f"operator pool table of {cls.__name__}: every gp_* name bound to the function it names", not wrong, str(wrong[:3]))
+        # behaviour through the pool: what each mutation entry does to a tree, judged by what its name promises
+        numba_seed(chk.seed + 77)
+        probe = [t for t in pool_trees if len(t) >= 4 and max(int(a) for a in t._n_args) >= 2][:6]
+        for name, got in inst._mutation_pool.items():
+            if not name.startswith("gp_"):
+                continue
+            kind = name.split("_")[-1]
+            for t in probe:
+                names0, ar0 = flat_names(t)
+                for _ in range(6):
+                    child = got[0](t.copy(), us, 1.0, 16)
+                    names1, ar1 = flat_names(child)
+                    ok = True
+                    if kind == "point":
+                        ok = ar1 == ar0
+                    elif kind == "swap":
+                        ok = sorted(names1) == sorted(names0) and sorted(ar1) == sorted(ar0)
+                    elif kind == "shrink":
+                        ok = len(names1) < len(names0) or names1 == names0
+                    if not ok:
+                        chk.fail("an operator reached through the pool does not do what its name says",
+                                 {"optimizer": cls.__name__, "entry": name, "bound_to": getattr(got[0], "__name__", "?"), "parent": sstr(t), "child": sstr(child)},
+                                 {"fn": "pool", "clause": "wiring", "mutation": kind})
+                        break
+                else:
+                    continue
+                break
     # ------------------------------------------------------------------ whole runs with every pool entry
     xnames = ["gp_empty", "gp_standard", "gp_one_point", "gp_uniform_2", "gp_uniform_7", "gp_uniform_k", "gp_uniform_prop_2", "gp_uniform_prop_7", "gp_uniform_prop_k",
               "gp_uniform_rank_2", "gp_uniform_rank_7", "gp_uniform_rank_k", "gp_uniform_tour_3", "gp_uniform_tour_7", "gp_uniform_tour_k"]
